@@ -193,9 +193,14 @@ def merge3(base, ann, cur, dropped=None, coarse=False):
         while hi > lo and m[hi - 1] is not None:
             hi -= 1
         gone = set()    # ghost variables whose declaration is dropped
+        # ghost STATE (variables declared `let ghost mut`): a proof block that assigns one of them is not a hint -- later clauses are
+        # stated over that state -- and must not be dropped silently
+        gmut = set(ann[k + 3] for k in range(len(ann) - 3) if ann[k] == "let" and ann[k + 1] == "ghost" and ann[k + 2] == "mut")
         for g in list(runs):
             if lo <= g <= hi and runs[g][0] in ("proof", "assert", "let", "broadcast", "assume"):
                 r_ = runs[g]
+                if r_[0] == "proof" and any(r_[k] in gmut and r_[k + 1] == "=" and r_[k + 2] != "=" for k in range(len(r_) - 2)):
+                    raise MergeConflict("a proof block that updates ghost state (%s) sits in the rewritten part of the function" % ", ".join(sorted(t for t in r_ if t in gmut)))
                 for k in range(len(r_) - 2):
                     if r_[k] == "let" and r_[k + 1] == "ghost":
                         gone.add(r_[k + 3] if r_[k + 2] == "mut" else r_[k + 2])
